@@ -4,7 +4,11 @@
      src/raw/node.rs drive them: every emission is a `write_all` of a small buffer through the
      CountingWriter, except the 4 checksum bytes of `into_inner`, which go to the INNER writer,
      followed by `flush`.
-   The sink is an oracle: a script of responses consumed one per `write` call.
+   The sink is an oracle: a script of responses consumed one per `write` call. It also keeps the
+   number of bytes it accepted since its last successful flush (s_unflushed): a buffering or
+   commit-on-flush writer loses exactly those, so "into_inner returned Ok" must imply that this
+   number is 0 (the order `checksum; flush` of into_inner matters). Bytes sitting in a BufWriter's
+   own buffer are not in the sink at all (b_buf).
    The checksum is abstract (Section variables); the CRC model lives elsewhere.
    No proofs here. *)
 Require Import FstV.Base.
@@ -98,27 +102,32 @@ Record sink := mkSink {
   s_oracle : list resp;   (* responses not yet consumed; exhausted = accept everything *)
   s_calls : nat;          (* number of write calls received *)
   s_fresp : fresp;        (* response of every flush call *)
-  s_flushes : nat         (* number of flush calls that succeeded *)
+  s_flushes : nat;        (* number of flush calls that succeeded *)
+  s_unflushed : nat       (* bytes accepted since the last successful flush (since construction, if
+                             there was none): what a commit-on-flush sink would lose *)
 }.
 
 Definition sink_write (s : sink) (buf : list N) : iores nat * sink :=
   match s_oracle s with
   | [] => (IoOk (length buf),
-           mkSink (s_data s ++ buf) [] (S (s_calls s)) (s_fresp s) (s_flushes s))
+           mkSink (s_data s ++ buf) [] (S (s_calls s)) (s_fresp s) (s_flushes s)
+                  (s_unflushed s + length buf))
   | Accept n :: o =>
     let m := Nat.min n (length buf) in
-    (IoOk m, mkSink (s_data s ++ firstn m buf) o (S (s_calls s)) (s_fresp s) (s_flushes s))
+    (IoOk m, mkSink (s_data s ++ firstn m buf) o (S (s_calls s)) (s_fresp s) (s_flushes s)
+                    (s_unflushed s + m))
   | Interrupted :: o =>
-    (IoErr IoInterrupted, mkSink (s_data s) o (S (s_calls s)) (s_fresp s) (s_flushes s))
+    (IoErr IoInterrupted, mkSink (s_data s) o (S (s_calls s)) (s_fresp s) (s_flushes s) (s_unflushed s))
   | Zero :: o =>
-    (IoOk O, mkSink (s_data s) o (S (s_calls s)) (s_fresp s) (s_flushes s))
+    (IoOk O, mkSink (s_data s) o (S (s_calls s)) (s_fresp s) (s_flushes s) (s_unflushed s))
   | Fail k :: o =>
-    (IoErr k, mkSink (s_data s) o (S (s_calls s)) (s_fresp s) (s_flushes s))
+    (IoErr k, mkSink (s_data s) o (S (s_calls s)) (s_fresp s) (s_flushes s) (s_unflushed s))
   end.
 
 Definition sink_flush (s : sink) : iores unit * sink :=
   match s_fresp s with
-  | FlushOk => (IoOk tt, mkSink (s_data s) (s_oracle s) (s_calls s) (s_fresp s) (S (s_flushes s)))
+  (* a successful flush commits everything accepted so far; a failing one commits nothing *)
+  | FlushOk => (IoOk tt, mkSink (s_data s) (s_oracle s) (s_calls s) (s_fresp s) (S (s_flushes s)) O)
   | FlushFail k => (IoErr k, s)
   end.
 
@@ -306,6 +315,21 @@ Section Builder.
     | (e, c1) => (e, c1)
     end.
 
+  (* REGRESSION WITNESS ONLY (seeded change C07-4), never used by run_session: into_inner with its
+     last two steps swapped, `wtr.flush()?; io_write_u32_le(sum, &mut wtr)?; Ok(wtr)` - the sink ends
+     up with the same bytes, but the checksum reaches it after its last flush *)
+  Definition run_finish_flush_first (c : cw W) (fin : list (list N)) : iores unit * cw W :=
+    match cw_write_chunks c fin with
+    | (IoOk _, c1) =>
+      match w_flush wr (c_inner c1) with
+      | (IoOk _, i2) =>
+        let '(r3, i3) := w_write_all wr i2 (le32 (masked (c_sum c1))) in
+        (r3, mkCw i3 (c_cnt c1) (c_sum c1))
+      | (e, i2) => (e, mkCw i2 (c_cnt c1) (c_sum c1))
+      end
+    | (e, c1) => (e, c1)
+    end.
+
   Definition run_session (st0 : W) (calls : list (list (list N))) (fin : list (list N)) : outcome W :=
     let '(rs, c, alive) := run_calls (mkCw st0 0 0) calls in
     if alive then
@@ -316,7 +340,8 @@ End Builder.
 
 (* ---------- the two stacks the harness drives ---------- *)
 Definition new_sink (oracle : list resp) (fl : fresp) (prefill : list N) : sink :=
-  mkSink prefill oracle O fl O.
+  (* the prefill was there before the session: it is not pending *)
+  mkSink prefill oracle O fl O O.
 
 Definition run_sink_session crc_update masked (old : bool)
            (oracle : list resp) (fl : fresp) (prefill : list N) calls fin : outcome sink :=
